@@ -31,6 +31,7 @@ type RevProfile struct {
 	RacePanic     bool
 	CachePct      int
 	LatMax        int   // upper bound of latencies in ms (0 = 3000)
+	RepsPct       int   // single-world profiles: percent of runs in which 2..3 callers validate the same chain concurrently, with different signing times
 	KeyW          []int // weights of certificate key kinds (ec256, ec384, rsa2048, ec521, rsa3072); nil = default mix
 	SoakPct       int   // percent of runs that are sequential multi-validation histories over simulated time (shared cache)
 	SoakLong      bool  // thorough: longer histories
@@ -68,6 +69,7 @@ type World struct {
 	UseSysRoot  bool      // C15: the chain hangs under the process's host-trusted root
 	InvBase     time.Time // reference instant of invalidity dates when no signing time is supplied (zero = stBase)
 	CloneOf     *World    // soak: same chain and URLs as this world, other contents
+	RepST       []int     // per concurrent caller: 0 the world's signing time, 1 none, 2 one hour earlier, 3 one hour later, 4 the reference instant
 	EKUVariant  int       // ChainTSALeafEKU: 0 one unknown OID only, 1 no EKU extension, 2 timeStamping + codeSigning, 3 timeStamping non-critical
 	SiblingLeaf bool      // soak: the leaf is ANOTHER certificate of the same CA (same URLs), listed as "other serial" in the original's CRLs
 	// materialised
@@ -549,6 +551,14 @@ func (p *RevProfile) genWorld(t *Tape, sc *RevScenario, id int) *World {
 		w.Reps = 1 + t.Weighted(45, 25, 12, 10, 8)
 		if w.Reps == 5 {
 			w.Reps = p.MaxCallers / 2
+		}
+	}
+	if p.RepsPct > 0 && w.Entry == EValidateContext && t.Bool(p.RepsPct) {
+		w.Reps = 2 + t.Choose(2)
+	}
+	if w.Reps > 1 && t.Bool(40) {
+		for r := 0; r < w.Reps; r++ {
+			w.RepST = append(w.RepST, t.Weighted(40, 20, 15, 15, 10))
 		}
 	}
 	if p.InvalidChain > 0 && t.Bool(p.InvalidChain) {
